@@ -132,6 +132,7 @@ pub fn gen_client_cfg(ctx: &mut Ctx, unicode: bool, allow_nla: bool) -> ClientCf
     c.blank = ctx.chance("blank", 1, 3);
     c.use_hash = ctx.chance("use_hash", 1, 4);
     c.nla = allow_nla && ctx.chance("nla", 1, 2);
+    c.check_cert = ctx.chance("check_cert", 1, 3);
     c
 }
 
